@@ -278,31 +278,129 @@ def run_same_object_two_associations(ctx):
 
 def run_provider_read_sizes(ctx):
     """'Remain able to send/receive' also concerns the provider underneath: a provider created with the locally
-    configured maximum (incl. 0 = no limit and the smallest values) must carry a conversation exactly like one
-    created with the default (the configured value is what it passes to recv())."""
-    from .. import convs, simnet
-    from .c03 import observe_script
+    configured maximum L (incl. 0 = no limit and the smallest values) must carry a conversation in which the peer
+    RESPECTS that maximum - P-DATA-TF PDUs of at most L bytes, association PDUs of any size - and deliver the same
+    messages as a provider with the default maximum does."""
+    from .. import convs, simnet, refcmd, refpdu
     from .c13 import full_script
-    for name in ('acc-store-release', 'req-echo-release'):
-        role, steps = convs.corpus()[name]
+    from ..pdugen import first_diff
+    data = dg.patterned(1500, 4)
+    cmd = refcmd.encode({0x0002: convs.STORE_UID, 0x0100: 0x0001, 0x0110: 7, 0x0700: 0, 0x0800: 0x0001, 0x1000: '1.2.3.4.5.6'})
+
+    def conversation(role, limit):
+        pdus = [refpdu.enc_pdu({'t': 4, 'r': 0, 'pdvs': [f]}) for f in dg.ref_fragments(cmd, data, limit, 3)]
+        if role == 'acceptor':
+            return [('burst', convs.enc(convs.RQ_SPEC)), ('user', {'pdu': convs.AC_SPEC}), ('burst', pdus),
+                    ('burst', convs.enc(convs.REL_RQ)), ('user', {'pdu': convs.REL_RP}), ('close',)]
+        return [('user', {'pdu': convs.RQ_SPEC}), ('burst', convs.enc(convs.AC_SPEC)), ('burst', pdus),
+                ('user', {'pdu': convs.REL_RQ}), ('burst', convs.enc(convs.REL_RP)), ('close',)]
+    for role in ('acceptor', 'requestor'):
         base = None
         for L in [65536] + GRID:
-            sim = simnet.run_scenario(role, full_script(steps), max_pdu=L)
+            limit = min(L, 65536) if L else 65536
+            sim = simnet.run_scenario(role, full_script(conversation(role, limit)), max_pdu=L, budget=200000)
             obs = {'outcome': sim.outcome[0], 'inds': [convs.describe_ind(i) for i in sim.indications()], 'wire': sim.wire(),
                    'final': sim.final()['state']}
-            case = {'role': 'provider', 'conv': name, 'L': L}
+            case = {'role': 'provider', 'conv': role, 'L': L}
             if base is None:
                 base = obs
                 continue
-            ctx.case(('provider', name, L), True, labels=['provider-read-size', 'own-unlimited' if L == 0 else 'own-limited'],
-                     sample={'conversation': name, 'provider_max_pdu_length': L})
-            from ..pdugen import first_diff
+            ctx.case(('provider', role, L), True, labels=['provider-read-size', 'own-unlimited' if L == 0 else 'own-limited'],
+                     sample={'role': role, 'provider_max_pdu_length': L, 'peer sends P-DATA-TF of at most': limit})
             if obs['outcome'] != base['outcome'] or first_diff(base['inds'], obs['inds']) or obs['wire'] != base['wire'] \
                     or obs['final'] != base['final']:
-                ctx.fail('C10:provider-cannot-receive', 'a provider configured with maximum PDU length %d cannot carry the '
-                         'conversation %s: %d indications (expected %d), %d bytes sent (expected %d), outcome %s'
-                         % (L, name, len(obs['inds']), len(base['inds']), len(obs['wire']), len(base['wire']), obs['outcome']),
+                ctx.fail('C10:provider-cannot-receive', 'a provider configured with maximum PDU length %d cannot carry a '
+                         'conversation (%s) whose P-DATA-TF PDUs respect that maximum: %d indications (expected %d), %d bytes '
+                         'sent (expected %d), outcome %s'
+                         % (L, role, len(obs['inds']), len(base['inds']), len(obs['wire']), len(base['wire']), obs['outcome']),
                          case)
+
+
+def loopback_exact_peer(L, P, n_bytes):
+    """The real requesting stack (own maximum L) against a raw-socket peer that applies PS3.8 Annex D.1 to the letter:
+    it announces P for what it receives, and fills the PDUs IT sends up to what the requester announced (L) - not
+    up to min(L, P).  The requester must take a C-FIND response of n_bytes sent that way."""
+    import socket
+    import threading
+    from pynetdicom2 import applicationentity, sopclass, exceptions
+    from pydicom.dataset import Dataset
+    from .. import refpdu, loopback as lb, svc
+    from .c14 import _read_pdu
+    case = {'role': 'loopback-exact-peer', 'L': L, 'P': P, 'bytes': n_bytes}
+    FIND = '1.2.840.10008.5.1.4.1.2.1.1'
+    ds = Dataset()
+    ds.QueryRetrieveLevel = 'PATIENT'
+    ds.PatientID = 'X' * 64
+    ds.PatientComments = 'c' * n_bytes
+    ident = svc.enc_ds(ds, svc.IMPLICIT)
+    srv = socket.socket(socket.AF_INET, socket.SOCK_STREAM)
+    srv.bind(('127.0.0.1', 0))
+    srv.listen(1)
+    port = srv.getsockname()[1]
+    errors, seen = [], {}
+
+    def peer():
+        try:
+            conn, _ = srv.accept()
+            conn.settimeout(10)
+            rq = refpdu.parse_pdu(_read_pdu(conn))
+            announced = [s_['max'] for it in rq['items'] if it['t'] == 0x50 for s_ in it['subs'] if s_['t'] == 0x51]
+            seen['announced'] = announced[0] if announced else None
+            pcs = [it for it in rq['items'] if it['t'] == 0x20]
+            conn.sendall(refpdu.enc_pdu(fd.ac_spec([(it['id'], 0, TS) for it in pcs], P)))
+            req = refpdu.parse_pdu(_read_pdu(conn))          # command (and perhaps identifier) of the C-FIND-RQ
+            pc = req['pdvs'][0]['id']
+            while not any(v['data'][0] == 2 for v in req['pdvs']):
+                req = refpdu.parse_pdu(_read_pdu(conn))
+            limit = seen['announced'] or 1 << 20
+            for status, data in ((0xFF00, ident), (0x0000, None)):
+                cmd = refcmd.encode({0x0002: FIND, 0x0100: 0x8020, 0x0120: 1, 0x0800: 0x0001 if data else 0x0101, 0x0900: status})
+                for fr in dg.ref_fragments(cmd, data, limit, pc):
+                    conn.sendall(refpdu.enc_pdu({'t': 4, 'r': 0, 'pdvs': [fr]}))
+            rel = _read_pdu(conn)
+            if rel and rel[0] == 5:
+                conn.sendall(refpdu.enc_pdu({'t': 6, 'r1': 0, 'r2': 0}))
+            conn.close()
+        except Exception as exc:      # noqa
+            errors.append(exc)
+        finally:
+            srv.close()
+    th = threading.Thread(target=peer, daemon=True)
+    th.start()
+    ae = applicationentity.ClientAE('CLI', [TS], L)
+    ae.timeout = 8
+    ae.add_scu(sopclass.qr_find_scu, [FIND])
+    got, raised = [], None
+    try:
+        with ae.request_association({'aet': 'SRV', 'address': '127.0.0.1', 'port': port}) as assoc:
+            q = Dataset()
+            q.QueryRetrieveLevel = 'PATIENT'
+            q.PatientID = ''
+            for match, status in assoc.get_scu(FIND)(q, 1):
+                got.append((None if match is None else len(str(getattr(match, 'PatientComments', ''))), int(status)))
+    except exceptions.DCMTimeoutError:
+        raise lb.Inconclusive('library time-out')
+    except Exception as exc:
+        raised = exc
+    th.join(5)
+    if errors and raised is None and got == [(n_bytes, 0xFF00), (None, 0)]:
+        return
+    if raised is not None or got != [(n_bytes, 0xFF00), (None, 0)]:
+        raise Violation('C10:cannot-receive-what-it-announced', 'a requester that announced a maximum of %r (configured %d) to a peer '
+                        'announcing %d: the peer sent a %d-byte match in P-DATA-TF PDUs of up to the length the requester '
+                        'announced; the requester got %r, raised %r' % (seen.get('announced'), L, P, n_bytes, got, raised), case)
+
+
+def run_loopback(ctx):
+    from .. import loopback as lb
+    for L, P, n in ((16384, 4096, 7000), (65536, 1024, 30000), (0, 2048, 20000), (16384, 16384, 7000), (4096, 16384, 7000)):
+        ctx.case(('exact-peer', L, P, n), L != P, labels=['loopback-exact-peer'], sample={'own': L, 'peer announces': P, 'match bytes': n})
+        try:
+            loopback_exact_peer(L, P, n)
+        except lb.Inconclusive:
+            ctx.inconclusive += 1
+        except Violation as v:
+            ctx.fail(v.key, v.what, v.case)
 
 
 def run_pairs(ctx, job):
@@ -366,11 +464,19 @@ def run(ctx):
                      sample={'role': role, 'own_max': L, 'peer_announced': P, 'data_len': lengths[0]})
     run_same_object_two_associations(ctx)
     run_provider_read_sizes(ctx)
+    run_loopback(ctx)
     run_random(ctx, 8000 if ctx.thorough else 500)
 
 
 def replay(case):
     warnings.simplefilter('ignore')
+    if case.get('role') == 'loopback-exact-peer':
+        from .. import loopback as lb
+        try:
+            loopback_exact_peer(case['L'], case['P'], case['bytes'])
+        except lb.Inconclusive as inc:
+            print('inconclusive: %s' % inc)
+        return
     if case['role'] == 'same-object':
         from ..common import Ctx
         sub = Ctx('C10', 'quick', 1)
